@@ -80,6 +80,34 @@ theorem insert_alive (s : St) (e ty v : Nat) (h : s.alive e = true) :
 theorem insert_dead (s : St) (e ty v : Nat) (h : s.alive e = false) : enqueue s (.insert e ty v) = (s, []) := by
   simp [enqueue, h]
 
+/-- The explicitly non-reacting accessors (`get_noreact`, `React::get_noreact`, `ReactResMut::get_noreact`) write the value
+    and queue nothing — whatever the value. -/
+theorem noreact_never_triggers (s : St) (e ty v : Nat) :
+    (enqueue s (.mutNoReact e ty v)).2 = [] ∧ (enqueue s (.resNoReact ty v)).2 = [] ∧
+    (enqueue s (.resNoReact ty v)).1.res ty = v := by
+  refine ⟨?_, by simp [enqueue], by simp [enqueue, upd]⟩
+  simp only [enqueue]; split <;> rfl
+
+theorem alookup_aset_same (l : List (Nat × Nat)) (k v : Nat) : alookup (aset l k v) k = some v := by
+  induction l with
+  | nil => simp [aset, alookup]
+  | cons x l ih =>
+    obtain ⟨a, b⟩ := x
+    by_cases h : a = k
+    · simp [aset, alookup, h]
+    · simp [aset, alookup, h, ih]
+
+/-- **Inserting triggers an insertion if and only if the component was actually inserted on an existing entity**: the
+    queued pair `tryInsert; insReact` dispatches to the insertion reactors when the entity is still alive at apply time (the
+    component is then there), and to nobody when the entity died in between (finding F2, repaired). -/
+theorem insert_triggers_iff_inserted (s : St) (e ty v : Nat) :
+    (s.alive e = true → (alookup ((applyCmd s (.tryInsert e ty v)).comp e) ty).isSome) ∧
+    (s.alive e = false → alookup (s.comp e) ty = none →
+      applyCmd (applyCmd s (.tryInsert e ty v)) (.insReact e ty) = (applyCmd s (.tryInsert e ty v)).emit (.insNoop e ty)) := by
+  constructor
+  · intro h; simp [applyCmd, h, upd, alookup_aset_same]
+  · intro h hn; simp [applyCmd, h, hn]
+
 /-- For any sequence of accessor calls, the number of triggers queued is the number of reacting calls made:
     folding `enqueue` over the calls adds the per-call counts. -/
 def runCalls : St → List Act → St × List Cmd
